@@ -12,6 +12,7 @@ import (
 	"context"
 	"errors"
 	"fmt"
+	"reflect"
 	"runtime"
 	"strconv"
 	"strings"
@@ -118,6 +119,9 @@ type X struct {
 	ferr   map[int]error // leaf -> error passed to FlowError/ParallelError
 	units  map[int]*Unit
 	InBody int32
+	// Bare: executions under the race detector that must not synchronise with the generated code: no event
+	// log, no counters; user functions only sleep and return / panic.
+	Bare   bool
 	caller int64
 }
 
@@ -132,6 +136,22 @@ func NewX(exec int, p *Prog, s *Scen) *X {
 	return x
 }
 
+// MakeBare switches the execution to bare mode (see X.Bare).
+func (x *X) MakeBare() {
+	x.Bare = true
+	for i := range x.P.Units {
+		u := &x.P.Units[i]
+		n := 0
+		if u.Kind == "selem" || u.Kind == "melem" {
+			n = u.Len
+		}
+		x.errs[key(u.ID, -1)] = fmt.Errorf("error of unit %d", u.ID)
+		for j := 0; j < n; j++ {
+			x.errs[key(u.ID, j)] = fmt.Errorf("error of unit %d:%d", u.ID, j)
+		}
+	}
+}
+
 // From returns the execution a context belongs to (for user functions that
 // are not closures over x).
 func From(ctx context.Context) *X {
@@ -140,6 +160,9 @@ func From(ctx context.Context) *X {
 }
 
 func (x *X) add(e Ev) {
+	if x.Bare {
+		return
+	}
 	x.mu.Lock()
 	x.n++
 	e.Stamp, e.Exec = x.n, x.Exec
@@ -270,6 +293,9 @@ func (x *X) outcome(u, idx int, def string) string {
 // errOf returns the error value unit (u, idx) returns; it is created once so
 // that identity comparison works.
 func (x *X) errOf(k string) error {
+	if x.Bare {
+		return x.errs[k] // created beforehand (MakeBare); read-only from here on
+	}
 	x.mu.Lock()
 	defer x.mu.Unlock()
 	if e, ok := x.errs[k]; ok {
@@ -282,7 +308,16 @@ func (x *X) errOf(k string) error {
 
 type customPanic struct{ K string }
 
+// uncomparablePanic is a panic value whose type has no == (a struct with a slice field).
+type uncomparablePanic struct {
+	K    string
+	Tags []string
+}
+
 func (x *X) panicValue(k string) interface{} {
+	if x.Bare {
+		return "panic of unit " + k
+	}
 	x.mu.Lock()
 	defer x.mu.Unlock()
 	if v, ok := x.pvals[k]; ok {
@@ -294,6 +329,11 @@ func (x *X) panicValue(k string) interface{} {
 		v = fmt.Errorf("panic error of unit %s", k)
 	case "struct":
 		v = &customPanic{K: k}
+	case "slice":
+		// values of uncomparable type: comparing them (even as interface{}) panics
+		v = []string{"panic of unit", k}
+	case "ustruct":
+		v = uncomparablePanic{K: k, Tags: []string{"a", "b"}}
 	default:
 		v = "panic of unit " + k
 	}
@@ -315,7 +355,9 @@ func (x *X) enter(u, idx int, ctx context.Context, toks []int) {
 	if ctx != nil {
 		ok = From(ctx) == x
 	}
-	atomic.AddInt32(&x.InBody, 1)
+	if !x.Bare {
+		atomic.AddInt32(&x.InBody, 1)
+	}
 	x.add(Ev{Ev: "ustart", U: u, Idx: idx, G: vt.GoID(), Toks: toks, CtxOK: ok})
 	if d, has := x.S.DelayUs[key(u, idx)]; has {
 		if d < 0 {
@@ -332,7 +374,9 @@ func (x *X) enter(u, idx int, ctx context.Context, toks []int) {
 // leave logs the end of the unit and panics if the scenario says so.
 func (x *X) leave(u, idx int, out string) {
 	k := key(u, idx)
-	defer atomic.AddInt32(&x.InBody, -1)
+	if !x.Bare {
+		defer atomic.AddInt32(&x.InBody, -1)
+	}
 	x.add(Ev{Ev: "uend", U: u, Idx: idx, Out: out, G: vt.GoID()})
 	if out == "panic" {
 		if x.S.PanicK[k] == "rt" {
@@ -380,6 +424,9 @@ func (x *X) Elem(u int, ctx context.Context, idx int, toks ...int) error {
 
 // Ret logs what the directive returned, and the contents of the Results targets.
 func (x *X) Ret(err error, results ...int) {
+	if x.Bare {
+		return
+	}
 	kind, toks := x.classify(err)
 	x.add(Ev{Ev: "ret", Kind: kind, Errs: toks, Toks: results, G: vt.GoID()})
 	// which leaves were told this very error?
@@ -482,7 +529,8 @@ func (x *X) Tok(e error) vt.Tok {
 func samePanic(a, b interface{}) (same bool) {
 	defer func() {
 		if recover() != nil {
-			same = false
+			// uncomparable types: identical content (every unit's value carries the unit's key)
+			same = reflect.DeepEqual(a, b)
 		}
 	}()
 	return a == b
@@ -535,4 +583,13 @@ func AnyTok(v interface{}) int {
 		return b.Tok
 	}
 	return 0
+}
+
+// TokBytes carries a token in a byte slice.
+func TokBytes(tok int) []byte { return []byte(strconv.Itoa(tok)) }
+
+// BytesTok returns the token carried by b (0 for nil / empty).
+func BytesTok(b []byte) int {
+	n, _ := strconv.Atoi(string(b))
+	return n
 }
